@@ -22,6 +22,7 @@ def run(ctx):
                             'non-finite floats; all mapped zones incl. transition instants; depth <= 3; versions 2.0/3.0) through dump+parse in ZINC mode, '
                             'singly and as multi-grid documents; distinct by dumped text')
     gs = [codec.gen_grid(rng, rng.choice(['2.0', '3.0', '3.0']), depth=rng.choice([0, 1, 2, 3])) for _ in range(n)]
+    gs += codec.zone_sweep_grids(rng)        # one date-time in every mapped zone
     texts = []
     for g in gs:
         try:
